@@ -10,8 +10,16 @@
   of connection events `Mhd.ConnSM.Ev` — received tokens in any segmentation, peer
   close, read errors, `MHD_connection_handle_idle` under any environment (time-out,
   pool exhaustion, allocation / header-build / epoll_ctl failures, content-reader
-  results, shutdown flag), write progress, forced close, resume, daemon shutdown,
-  cleanup — in any order and of any length.  No bound anywhere.
+  results, shutdown flag, failure of MHD_response_execute_upgrade_), write progress,
+  forced close, resume, daemon shutdown, end of an upgraded connection, cleanup — in
+  any order and of any length.  No bound anywhere.
+
+  Responses may be interim ones (102 Processing: after the complete reply the request
+  goes back to HEADERS_PROCESSED, the handler is asked again and another response may be
+  queued — any number of times) and upgrade responses (MHD_response_execute_upgrade_:
+  connection suspended, upgrade handler called, response released; the connection
+  leaves the suspended list through resume_suspended_connections' `urh` branch, which
+  delivers the one completion notification and puts it on the cleanup list).
 
   The only hypothesis, `EvOk cfg e`, says that the event does not drive the connection
   down one of the four paths that lose or corrupt the notification in an *unrepaired*
@@ -70,18 +78,50 @@ theorem aware_iff_open_request {σ : Type} (cfg : Cfg) (app : App σ) (s : σ) (
 
 /-- Every way into MHD_CONNECTION_CLOSED either went through MHD_connection_close_ or happened
     with `client_aware` unset: a live connection in state CLOSED is never client-aware and holds no
-    response; a connection in the cleanup list is in state CLOSED. -/
+    response; a connection in the cleanup list is in state CLOSED or — when it was upgraded and has
+    been taken off the suspended list — in state UPGRADE, and in both cases it is not client-aware
+    (the completion notification has been delivered) and holds no response. -/
 theorem closed_only_unaware {σ : Type} (cfg : Cfg) (app : App σ) (s : σ) (evs : List Ev)
     (hok : ∀ e ∈ evs, EvOk cfg e) (hcl : (run cfg app (Conn.init s) evs).1.cleaned = false) :
     ((run cfg app (Conn.init s) evs).1.state = .closed →
        (run cfg app (Conn.init s) evs).1.clientAware = false ∧ (run cfg app (Conn.init s) evs).1.response = none) ∧
-    ((run cfg app (Conn.init s) evs).1.inCleanup = true → (run cfg app (Conn.init s) evs).1.state = .closed) := by
+    ((run cfg app (Conn.init s) evs).1.inCleanup = true →
+       ((run cfg app (Conn.init s) evs).1.state = .closed ∨ (run cfg app (Conn.init s) evs).1.state = .upgrade) ∧
+       (run cfg app (Conn.init s) evs).1.clientAware = false ∧ (run cfg app (Conn.init s) evs).1.response = none) := by
   have h := run_rel cfg app evs (Conn.init s) .fresh (init_rel s) hok
   generalize Protocol.run .fresh (run cfg app (Conn.init s) evs).2 = p at h
   generalize (run cfg app (Conn.init s) evs).1 = c at h hcl ⊢
   have hinv : Mhd.ConnSM.Inv c := by cases p <;> simp_all [Rel]
   simp only [Mhd.ConnSM.Inv] at hinv
-  exact ⟨hinv.2.2.2.1, hinv.2.2.2.2.2.1⟩
+  refine ⟨hinv.2.2.2.1, fun hi => ?_⟩
+  obtain ⟨h1, h2, h3⟩ := hinv.2.2.2.2.2.1 hi
+  refine ⟨?_, h2, h3⟩
+  cases hst : c.state <;> simp [hst] at h1 <;> simp
+
+/-- An upgraded connection that is still on the suspended list has an open request exactly when it
+    is client-aware, and it holds no response object any more (it was released right after the
+    upgrade handler returned); the protocol automaton then has recorded the accepted response, so
+    that no further handler call and no further response is accepted before the completion. -/
+theorem upgraded_holds_no_response {σ : Type} (cfg : Cfg) (app : App σ) (s : σ) (evs : List Ev)
+    (hok : ∀ e ∈ evs, EvOk cfg e) (hcl : (run cfg app (Conn.init s) evs).1.cleaned = false)
+    (hup : (run cfg app (Conn.init s) evs).1.state = .upgrade) :
+    (run cfg app (Conn.init s) evs).1.response = none ∧
+    (∀ r, Protocol.run .fresh (run cfg app (Conn.init s) evs).2 = .req r → r.replied = true) := by
+  have h := run_rel cfg app evs (Conn.init s) .fresh (init_rel s) hok
+  generalize Protocol.run .fresh (run cfg app (Conn.init s) evs).2 = p at h
+  generalize (run cfg app (Conn.init s) evs).1 = c at h hcl hup ⊢
+  have hinv : Mhd.ConnSM.Inv c := by cases p <;> simp_all [Rel]
+  simp only [Mhd.ConnSM.Inv] at hinv
+  have hr : c.response = none := by
+    cases hq : c.response with
+    | none => rfl
+    | some x => have := hinv.1 (by simp [hq]); rw [hup] at this; simp at this
+  refine ⟨hr, ?_⟩
+  intro r hp
+  subst hp
+  simp only [Rel] at h
+  rw [h.2.2.2.2.2.2.1]
+  simp [respOrUpg, hup]
 
 /-- With the four repairs in place there is no hypothesis left: every event sequence. -/
 theorem protocol_accepts_fixed {σ : Type} (cfg : Cfg) (h9 : cfg.f9Fixed = true) (ha : cfg.allocBypassFixed = true)
@@ -172,6 +212,61 @@ example :
        .idle {}, .write .done, .idle {}, .write .done, .idle {}, .recv [.headers .none true false], .idle {},
        .write .done, .idle {}, .write .done, .idle {}, .recvEof, .idle {}, .cleanup]
     r.2.length = 14 ∧ Protocol.accepts r.2 ∧ Protocol.complete r.2 ∧ r.1.cleaned = true := by decide
+
+/-- first call: 102 (with free callback); asked again: continues; final call: 102 again; asked again
+    (first site, then final site): final reply -/
+def interimApp : App Nat :=
+  { uriLog := fun n => (n, none),
+    handle := fun n _ => (n + 1,
+      { act := if n = 0 then .reply { rid := 6, interim := true, body := false, freeCb := true } false
+               else if n = 2 then .reply { rid := 5, interim := true, body := false } false
+               else if n = 4 then .reply { rid := 0 } false else .cont,
+        ctxOut := some 1 }) }
+
+/-- two interim replies and a final one for one request: five handler calls, three accepted responses,
+    one completion; accepted and complete -/
+example :
+    let r := run {} interimApp (Conn.init 0)
+      [.start, .recv [.line .ok, .headers .none true false], .idle {}, .write .done, .idle {},
+       .write .done, .idle {}, .write .done, .idle {}, .write .done, .idle {}, .cleanup]
+    (r.2.filter (fun e => match e with | .handler .. => true | _ => false)).length = 5 ∧
+    (r.2.filter (· == .interimSent)).length = 2 ∧ (r.2.filter (· == .queued)).length = 3 ∧
+    (r.2.filter (fun e => match e with | .completed .. => true | _ => false)).length = 1 ∧
+    Protocol.accepts r.2 ∧ Protocol.complete r.2 ∧ r.1.cleaned = true := by decide
+
+/-- replies with an upgrade response at the final call -/
+def upgrader : App Unit :=
+  { uriLog := fun _ => ((), some 7),
+    handle := fun _ ci => ((), { act := if ci.site = .final then .reply { rid := 7, upgrade := true, body := false } false else .cont,
+                                  ctxOut := some 1 }) }
+
+/-- upgrade: after the header has been sent the upgrade handler is called, the connection is suspended in
+    state UPGRADE with the request still open (time-outs, resume, forced close and shutdown-close do not
+    touch it); `upgradeDone` delivers the single completion notification; accepted and complete -/
+example :
+    let evs : List Ev := [.start, .recv [.line .ok, .headers .none true false], .idle {}, .write .done, .idle {},
+                          .idle { timedOut := true }, .resume, .forceClose, .shutdownClose, .recvEof]
+    let r1 := run {} upgrader (Conn.init ()) evs
+    let r2 := run {} upgrader (Conn.init ()) (evs ++ [.upgradeDone, .upgradeDone, .cleanup])
+    r1.1.state = .upgrade ∧ r1.1.suspended = true ∧ r1.1.clientAware = true ∧ r1.1.response = none ∧
+    (r1.2.filter (· == .upgrade)).length = 1 ∧ Protocol.accepts r1.2 ∧ ¬ Protocol.complete r1.2 ∧
+    (r2.2.filter (fun e => match e with | .completed .. => true | _ => false)).length = 1 ∧
+    Protocol.accepts r2.2 ∧ Protocol.complete r2.2 ∧ r2.1.cleaned = true := by decide
+
+/-- MHD_response_execute_upgrade_ fails: closed with error, completion delivered once, no upgrade callback -/
+example :
+    let r := run {} upgrader (Conn.init ())
+      [.start, .recv [.line .ok, .headers .none true false], .idle {}, .write .done, .idle { upgradeFail := true }, .cleanup]
+    (r.2.filter (· == .upgrade)).length = 0 ∧ r.2.contains (.completed terminatedWithError (some 1)) = true ∧
+    Protocol.accepts r.2 ∧ Protocol.complete r.2 := by decide
+
+/-- the automaton rejects what the extension must exclude: an upgrade callback without an accepted
+    response, a handler call after the upgrade, a second interim continuation without a new response -/
+example : ¬ Protocol.accepts [.connStart, .uriLog none, .handler .first 0 0 0 none (some 1) true, .upgrade] ∧
+    ¬ Protocol.accepts [.connStart, .uriLog none, .handler .first 0 0 0 none (some 1) true, .queued, .upgrade,
+                        .handler .final 0 0 0 (some 1) (some 1) true] ∧
+    ¬ Protocol.accepts [.connStart, .uriLog none, .handler .first 0 0 0 none (some 1) true, .queued, .interimSent,
+                        .interimSent] := by decide
 
 example : ∀ e ∈ ([.start, .idle { timedOut := true, noSpace := true, chunkExt := true, errAllocFail := true,
                                   errHdrFail1 := true, epollAdd := some false }, .cleanup] : List Ev), EvOk {} e :=
